@@ -216,6 +216,18 @@ func buildC17World(c *ctx, w *world) *c17world {
 		d := del(shares[2])
 		del(d) // the deletion is itself deleted: shares[2] is live again
 	}
+	if len(shares) > 5 {
+		// deleted twice, then only the later deletion is revoked: the older one is still in force
+		del(shares[4])
+		d2 := del(shares[4])
+		del(d2)
+		cw.deleted[shares[4].id] = true
+		// and the other way round: the older deletion revoked, the newer in force
+		d1 := del(shares[5])
+		del(shares[5])
+		del(d1)
+		cw.deleted[shares[5].id] = true
+	}
 	for _, b := range cw.blobs {
 		if b.kind == "share" && b.target == -1 {
 			b.target = len(cw.blobs) + 1
@@ -323,7 +335,7 @@ func (cw *c17world) request(method string, chain []int) (int, string) {
 }
 
 func runC17(c *ctx) {
-	c.rep.Rule = "share worlds: files with chunk and bytes parts, a small directory (static-set members), a large directory whose static-set spreads its members over mergeSets, blobs that only mention refs (text, a file named like a ref, a camliContent claim), share claims transitive or not, expired, not yet expired, deleted, deleted-then-undeleted, share of a share, share of an absent blob; " +
+	c.rep.Rule = "share worlds: files with chunk and bytes parts, a small directory (static-set members), a large directory whose static-set spreads its members over mergeSets, blobs that only mention refs (text, a file named like a ref, a camliContent claim), share claims transitive or not, expired, not yet expired, deleted, deleted-then-undeleted, deleted twice with one of the two deletions revoked, share of a share, share of an absent blob; " +
 		"ALL request chains of length 1-3 over the world's blobs that start at a share or are short, plus every valid chain up to length 6 and one-blob corruptions of it, with GET and the other methods; then an in-process server from serverinit (root, storage, index, search, jsonsign, status, help, sync, share) under userpass and token auth: every prefix and camli/ endpoint, with and without credentials; non-trivial = distinct chain that starts at a live share"
 	restore := server.VerifDisableShareDelay()
 	defer restore()
